@@ -343,6 +343,20 @@ func vBodyOK(m vMsg) bool {
 		}
 		n := vBE16(b, 0)
 		return len(b) == 2+4*n
+	case 'v': // NegotiateProtocolVersion: int32 minor, int32 n, n names
+		if len(b) < 8 {
+			return false
+		}
+		n := int(vBE32(b, 4))
+		i := 8
+		for k := 0; k < n; k++ {
+			j := vCString(b, i)
+			if j < 0 {
+				return false
+			}
+			i = j
+		}
+		return i == len(b)
 	case '1', '2', '3', 'n', 'I', 's':
 		return len(b) == 0
 	}
